@@ -1925,6 +1925,14 @@ func (te *TemplateEngine) escapeXMLContent(s string) string {
 	s = strings.ReplaceAll(s, ">", "&gt;")
 	s = strings.ReplaceAll(s, "\"", "&quot;")
 	s = strings.ReplaceAll(s, "'", "&apos;")
+	// XML 1.0 不允许的字符（控制字符、U+FFFE/U+FFFF、无效的UTF-8字节）无法转义，
+	// 与 encoding/xml 对正文文本的处理一致，替换为 U+FFFD，否则页眉/页脚部件将不是格式良好的XML
+	s = strings.Map(func(r rune) rune {
+		if r == 0x09 || r == 0x0A || r == 0x0D || (r >= 0x20 && r <= 0xD7FF) || (r >= 0xE000 && r <= 0xFFFD) || (r >= 0x10000 && r <= 0x10FFFF) {
+			return r
+		}
+		return '\uFFFD'
+	}, s)
 	return s
 }
 
